@@ -472,6 +472,31 @@ def _nonempty(F, f, du, cfg, use_bb, op, depth=0):
                             rets.append((bj, r2["ops"][0]))
                         elif r2["k"] == "use" and MAPTY.search(g["locals"][0]) and not g["locals"][0].startswith(("std::result::Result<", "std::option::Option<")):
                             rets.append((bj, r2["op"]))
+                # `fn compile_output_asset(ir) -> Result<Multiasset, _> { compile_native_asset(ir, |q| ..) }`: the result of another
+                # function of the crate handed on as it is
+                delegated = []
+                for bj, t2 in mir.calls(g):
+                    if t2["dest"]["l"] == 0 and not t2["dest"]["p"] and not (t2.get("callee") or "").endswith("::from_residual"):
+                        h = F.fns.get(t2.get("resolved") or t2.get("callee") or "")
+                        if h is not None and h["crate"] == "tx3_cardano" and h["path"] != g["path"]:
+                            delegated.append(h)
+                        else:
+                            return False, "%s returns what `%s` yields" % (g["path"].split("::")[-1], (t2.get("callee") or "?").split("::")[-1])
+                for h in delegated:
+                    dh, ch = mir.DefUse(h), mir.CFG(h)
+                    hrets = []
+                    for bj, sj, s2 in mir.stmts(h):
+                        if s2["lhs"]["l"] == 0 and not s2["lhs"]["p"] and s2["rv"]["k"] == "agg" and s2["rv"].get("variant") in ("Ok", "Some") and s2["rv"]["ops"]:
+                            hrets.append((bj, s2["rv"]["ops"][0]))
+                    if not hrets:
+                        return False, "what %s returns could not be followed" % h["path"].split("::")[-1]
+                    for bj, rop in hrets:
+                        okk, why = _nonempty(F, h, dh, ch, bj, rop, depth + 1)
+                        if not okk:
+                            return False, "%s can return an empty map (%s)" % (h["path"].split("::")[-1], why)
+                if delegated and not rets:
+                    whys.append("every return of %s is a non-empty map" % "/".join(h["path"].split("::")[-1] for h in delegated))
+                    continue
                 if not rets:
                     return False, "what %s returns could not be followed" % g["path"].split("::")[-1]
                 for bj, rop in rets:
